@@ -1,21 +1,29 @@
 #!/bin/bash
 # matrix.sh [seeded dirs...]: runs every check (quick) against every seeded change in scratch worktrees
-# and writes seeded/<name>/matrix.txt with one "check rc" line per property.
+# and writes seeded/<name>/matrix.txt with one "check rc classes" line per property.
+# The checks are run from a snapshot of /verif's HEAD (a git worktree), so that editing /verif while the
+# matrix runs (hours) does not mix versions. MATRIX_P = parallel changes (default 3).
 export GOFLAGS=-mod=mod GOPROXY=off GOSUMDB=off GOTOOLCHAIN=local
 cd /verif
+SNAP=$(mktemp -d /tmp/verif-snap-XXXXXX); rmdir "$SNAP"
+git worktree add -q "$SNAP" HEAD || exit 2
+trap 'git -C /verif worktree remove --force "$SNAP"' EXIT
+export SNAP
 dirs=("$@"); [ ${#dirs[@]} -eq 0 ] && dirs=(seeded/C*-*)
 one() {
   d="$1"; name=$(basename "$d")
+  [ -f "/verif/$d/patch.diff" ] || return
   WT=$(mktemp -d /tmp/mx-XXXXXX); rmdir "$WT"
   git -C /repo worktree add -q "$WT" HEAD || return
   if ! (cd "$WT" && git apply "/verif/$d/patch.diff"); then echo "patch does not apply" > "/verif/$d/matrix.txt"; git -C /repo worktree remove --force "$WT"; return; fi
-  : > "/verif/$d/matrix.txt"
+  : > "/verif/$d/matrix.txt.tmp"
   for id in C04 C05 C06 C10 C12 C13 C16 C17 C20; do
-    out=$(VERIF_OUT=/tmp/mx-out-$name VERIF_REPO="$WT" ./run.sh $id quick 2>&1); rc=$?
+    out=$(cd "$SNAP" && VERIF_OUT=/tmp/mx-out-$name VERIF_REPO="$WT" ./run.sh $id quick 2>&1); rc=$?
     cls=$(echo "$out" | grep -E "^violation class=|^class: " | sed -E 's/^violation class=([^:]*):.*/\1/; s/^class: //' | sort -u | tr '\n' ' ')
-    echo "$id rc=$rc $cls" >> "/verif/$d/matrix.txt"
+    echo "$id rc=$rc $cls" >> "/verif/$d/matrix.txt.tmp"
   done
+  mv "/verif/$d/matrix.txt.tmp" "/verif/$d/matrix.txt"
   git -C /repo worktree remove --force "$WT"; rm -rf "$WT" /tmp/mx-out-$name
 }
 export -f one
-printf '%s\n' "${dirs[@]}" | xargs -P 3 -I{} bash -c 'one {}'
+printf '%s\n' "${dirs[@]}" | xargs -P "${MATRIX_P:-3}" -I{} bash -c 'one {}'
